@@ -196,3 +196,48 @@ func verifHarness_C19_OpenReplayCompound40() {
 	}
 	rt.Assert(fh(second) == fh(first), "after a retransmitted OPEN the current file handle is the opened file's, as in the original reply")
 }
+
+// Lock-owner sequence numbers (LOCK by an existing lock-owner, LOCKU): a
+// retransmission gets the cached reply, an out-of-order number is rejected
+// without side effects -- in particular without forgetting the cached reply,
+// so that a later retransmission of the last good request is still answered.
+func verifHarness_C19_LockOwnerSeqid40() {
+	rt.MustCover("lockseq:replay", "lockseq:next", "lockseq:bad-then-replay")
+	r := verifNewRig40("f")
+	c, stateID, last := verifPrefix40(r)
+	fh := r.dir.leaves["f"].handle()
+	l0 := nfsv4.Seqid4(rt.NondetU32("first.lock_seqid"))
+	res := r.compound(verifPutFH(fh), &nfsv4.NfsArgop4_OP_LOCK{Oplock: nfsv4.Lock4args{Locktype: nfsv4.WRITE_LT, Offset: 0, Length: 10,
+		Locker: &nfsv4.Locker4_TRUE{OpenOwner: nfsv4.OpenToLockOwner4{OpenSeqid: verifNext(last), OpenStateid: stateID, LockSeqid: l0,
+			LockOwner: nfsv4.LockOwner4{Clientid: c, Owner: []byte("l1")}}}}})
+	lk, ok := r.last(res).(*nfsv4.NfsResop4_OP_LOCK).Oplock.(*nfsv4.Lock4res_NFS4_OK)
+	rt.Assert(ok, "LOCK by a new lock-owner succeeds")
+	lockStateID := lk.Resok4.LockStateid
+	// first LOCKU with the next lock sequence number
+	l1 := verifNext(l0)
+	unlock := func(seq nfsv4.Seqid4, sid nfsv4.Stateid4) nfsv4.Locku4res {
+		res := r.compound(verifPutFH(fh), &nfsv4.NfsArgop4_OP_LOCKU{Oplocku: nfsv4.Locku4args{Locktype: nfsv4.WRITE_LT, Seqid: seq, LockStateid: sid, Offset: 0, Length: 5}})
+		return r.last(res).(*nfsv4.NfsResop4_OP_LOCKU).Oplocku
+	}
+	res1 := unlock(l1, lockStateID)
+	rt.Assert(res1.GetStatus() == nfsv4.NFS4_OK, "LOCKU with the next lock sequence number is executed")
+	before := verifSnapshot40(r)
+	seq := nfsv4.Seqid4(rt.NondetU32("second.lock_seqid"))
+	res2 := unlock(seq, lockStateID)
+	switch {
+	case seq == l1:
+		rt.Cover("lockseq:replay")
+		rt.Assert(res2 == res1, "a retransmitted LOCKU gets the reply given the first time")
+		rt.Assert(verifSnapshot40(r) == before, "a retransmission is not executed again")
+	case seq == verifNext(l1):
+		rt.Cover("lockseq:next")
+	default:
+		rt.Assert(res2.GetStatus() == nfsv4.NFS4ERR_BAD_SEQID, "an out-of-order lock sequence number is rejected with BAD_SEQID")
+		rt.Assert(verifSnapshot40(r) == before, "a rejected request has no side effects")
+		// ... and the retransmission of the last good request is still answered from the cache
+		rt.Cover("lockseq:bad-then-replay")
+		res3 := unlock(l1, lockStateID)
+		rt.Assert(res3 == res1, "a rejected out-of-order request does not make the server forget the cached reply")
+		rt.Assert(verifSnapshot40(r) == before, "the retransmission is not executed again")
+	}
+}
